@@ -1293,6 +1293,16 @@ func (broker *Broker) finish(file sts.Polled) {
 	switch {
 	case file.Waiting() || file.Received():
 		log.Debug("Validated:", file.GetName())
+		if cached := broker.Conf.Cache.Get(file.GetName()); cached != nil &&
+			cached.GetHash() != "" && file.GetHash() != "" &&
+			cached.GetHash() != file.GetHash() {
+			// The answer is about the version that was polled.  Meanwhile a
+			// scan found the file changed and put the new version in the
+			// cache: that one has not been sent yet and is neither done nor
+			// to be deleted.
+			broker.info("Confirmed version superseded:", file.GetName())
+			return
+		}
 		// Make marking done and file removal a single transaction so that we
 		// keep the cache in sync with the file system.  Without it, it's
 		// possible (but not likely) that the cache could be written with a
